@@ -149,6 +149,19 @@ class Driver(GenericAdapter):
                 vals = [V(x) for x in op["vs"]]
                 form = variant or "list"
                 o.addlist(K(k), vals if form == "list" else tuple(vals) if form == "tuple" else iter(vals))
+            elif n in ("addlist_failing", "update_failing", "update_extend_failing"):
+                def breaking(items, after):
+                    for j_, x_ in enumerate(items):
+                        if j_ >= after:
+                            break
+                        yield x_
+                    raise RuntimeError("source failed")
+                if n == "addlist_failing":
+                    o.addlist(K(k), breaking([V(x) for x in op["vs"]], d))
+                elif n == "update_failing":
+                    o.update(breaking(self.pairs(op["arg"]), d))
+                else:
+                    o.update_extend(breaking(self.pairs(op["arg"]), d))
             elif n == "setitem":
                 o[K(k)] = V(op["v"])
             elif n == "delitem":
@@ -440,6 +453,10 @@ def record_traces(n, length, seed, U=5, cls=None, label=None):
                 op["k"] = rng.choice([0, 0, k])
             if n_ in ("update", "update_extend", "ior", "ctor"):
                 op["arg"] = [{"k": rng.randint(1, U), "v": rng.randint(1, 3)} for _ in range(rng.randint(0, 3))]
+            if n_ in ("addlist", "update", "update_extend") and rng.random() < 0.12:
+                # the argument is an iterator that raises after its first d items
+                op["op"] = n_ = n_ + "_failing"
+                op["d"] = rng.randint(0, len(op["vs"] if n_.startswith("addlist") else op["arg"]))
             variant = rng.choice(drv.variants(op))
             o, got = drv.step(o, op, variant)
             obs = drv.observe(o, got)
